@@ -11,8 +11,10 @@ import (
 	"encoding/json"
 	"fmt"
 	"io"
+	"math"
 	"net/http/httptest"
 	goruntime "runtime"
+	"strconv"
 	"strings"
 	"sync"
 	"sync/atomic"
@@ -107,6 +109,14 @@ func runC11x(c c11Case, info *c11Info) *vstat.Failure {
 	if err := e.store.Add(apiMetric); err != nil {
 		return vstat.Failf("store-add-error", "%v", err)
 	}
+	// a histogram written through the API by the api-observe actors: every
+	// observation is 1.0, so in any state the datum ever had the bucket le=1
+	// holds Count observations and Sum equals Count
+	apiHist := metrics.NewMetric("api_hist", "api_"+tag+".mtail", metrics.Histogram, metrics.Buckets, "k")
+	apiHist.Buckets = []datum.Range{{Min: 0, Max: 1}, {Min: 1, Max: 2}, {Min: 2, Max: math.Inf(1)}}
+	if err := e.store.Add(apiHist); err != nil {
+		return vstat.Failf("store-add-error", "%v", err)
+	}
 	var apiIncs atomic.Int64
 	apiMaxReps, apiActors := 0, 0
 	for _, a := range c.Actors {
@@ -154,6 +164,11 @@ func runC11x(c c11Case, info *c11Info) *vstat.Failure {
 		}
 		mu.Unlock()
 	}
+	tornHist := func(path string, le1, count uint64, sum float64) {
+		if le1 != count || sum != float64(count) {
+			setFail(vstat.Failf("export-shows-a-state-that-never-existed:"+path, "%s export of histogram api_hist: bucket le=1 holds %d, count %d, sum %v (every observation is 1.0: the three are equal in every state the datum was ever in)", path, le1, count, sum))
+		}
+	}
 	var lastScrape atomic.Int64
 	lastScrape.Store(-1)
 	for ai, a := range c.Actors {
@@ -184,6 +199,16 @@ func runC11x(c c11Case, info *c11Info) *vstat.Failure {
 						setFail(vstat.Failf("scrape-fails", "%v", gerr))
 						break
 					}
+					if fam := fams["api_hist"]; fam != nil {
+						for _, m := range fam.Metric {
+							h := m.GetHistogram()
+							for _, b := range h.GetBucket() {
+								if b.GetUpperBound() == 1 {
+									tornHist("prometheus", b.GetCumulativeCount(), h.GetSampleCount(), h.GetSampleSum())
+								}
+							}
+						}
+					}
 					// the never-reloaded program's counter: within [0, final], non-decreasing over scrapes
 					if fam := fams["lines_total"]; fam != nil {
 						for _, m := range fam.Metric {
@@ -212,6 +237,7 @@ func runC11x(c c11Case, info *c11Info) *vstat.Failure {
 				case "json":
 					w := httptest.NewRecorder()
 					sc.Exp.HandleJSON(w, httptest.NewRequest("GET", "/json", nil))
+					c11CheckJSONHist(w.Body.Bytes(), "json", tornHist)
 				case "varz":
 					w := httptest.NewRecorder()
 					sc.Exp.HandleVarz(w, httptest.NewRequest("GET", "/varz", nil))
@@ -221,6 +247,7 @@ func runC11x(c c11Case, info *c11Info) *vstat.Failure {
 				case "graphite":
 					w := httptest.NewRecorder()
 					sc.Exp.HandleGraphite(w, httptest.NewRequest("GET", "/graphite", nil))
+					c11CheckGraphiteHist(w.Body.String(), tornHist)
 				case "push-graphite":
 					_ = sc.Exp.VerifWriteSocketMetrics(io.Discard, "graphite")
 				case "push-statsd":
@@ -263,7 +290,52 @@ func runC11x(c c11Case, info *c11Info) *vstat.Failure {
 					}
 					apiIncs.Add(1)
 				case "marshal":
-					_, _ = e.store.MarshalJSON()
+					b, _ := e.store.MarshalJSON()
+					c11CheckJSONHist(b, "store-json", tornHist)
+				case "hist-export":
+					// the histogram's own exports, round robin, while it is being observed
+					switch r % 4 {
+					case 0:
+						w := httptest.NewRecorder()
+						sc.Exp.HandleJSON(w, httptest.NewRequest("GET", "/json", nil))
+						c11CheckJSONHist(w.Body.Bytes(), "json", tornHist)
+					case 1:
+						if fams, _, gerr, _ := sc.Gather(); gerr == nil {
+							if fam := fams["api_hist"]; fam != nil {
+								for _, m := range fam.Metric {
+									h := m.GetHistogram()
+									for _, b := range h.GetBucket() {
+										if b.GetUpperBound() == 1 {
+											tornHist("prometheus", b.GetCumulativeCount(), h.GetSampleCount(), h.GetSampleSum())
+										}
+									}
+								}
+							}
+						}
+					case 2:
+						w := httptest.NewRecorder()
+						sc.Exp.HandleGraphite(w, httptest.NewRequest("GET", "/graphite", nil))
+						c11CheckGraphiteHist(w.Body.String(), tornHist)
+					default:
+						b, _ := e.store.MarshalJSON()
+						c11CheckJSONHist(b, "store-json", tornHist)
+					}
+				case "api-observe":
+					// as a VM does: look the datum up (metric lock), then write to it
+					// (datum lock only): the writes can land while an export holds
+					// the metric's read lock
+					var ds []datum.Datum
+					for k := 0; k < 2; k++ {
+						d, err := apiHist.GetDatum(fmt.Sprintf("h%d", k))
+						if err != nil {
+							setFail(vstat.Failf("api-error", "%v", err))
+							break
+						}
+						ds = append(ds, d)
+					}
+					for k := 0; k < 300 && len(ds) == 2; k++ {
+						datum.Observe(ds[k%2], 1.0, time.Unix(1, 0))
+					}
 				case "load-new":
 					// a program nobody has seen, with metric names nobody has used:
 					// genuinely new entries in the store while exports iterate it
@@ -366,7 +438,7 @@ func c11RunRaw(raw json.RawMessage) *vstat.Failure {
 var c11Kinds = []string{"gc", "gc", "reload", "reload", "prom", "prom", "json", "varz", "graphite", "push-graphite", "push-statsd", "push-collectd", "marshal", "load-new", "load-new", "varz-slow", "store-replace", "store-replace"}
 
 func TestC11(t *testing.T) {
-	st := vstat.New("C11", "workload plans run under the race detector: 2-4 programs (scalar and dimensioned counters creating label values continuously, a limit, del, del-after, a histogram) fed a generated line stream while 3-8 concurrent actors with drawn start offsets, repetition counts and pauses run store GC, program reloads, unload+load, Prometheus gather, the JSON/varz/graphite handlers, Store.MarshalJSON and the three push formats; GOMAXPROCS drawn from {2,4,16}. Oracles: no race-detector report; the never-reloaded program's counter equals the number of matching lines; its exported value stays within [0, lines]; every scrape succeeds. non-trivial = a plan in which >= 3 kinds of actor overlapped with line processing; distinct by plan")
+	st := vstat.New("C11", "workload plans run under the race detector: 2-4 programs (scalar and dimensioned counters creating label values continuously, a limit, del, del-after, a histogram) fed a generated line stream while 3-8 concurrent actors with drawn start offsets, repetition counts and pauses run store GC, program reloads, unload+load, Prometheus gather, the JSON/varz/graphite handlers, Store.MarshalJSON and the three push formats; GOMAXPROCS drawn from {2,4,16}. Oracles: no race-detector report; the never-reloaded program's counter equals the number of matching lines; its exported value stays within [0, lines]; every scrape succeeds; API writers' increments are all there and no label value appears twice; a histogram observed (always 1.0) through held datum pointers is exported by JSON, Prometheus and graphite with bucket, count and sum that agree (a state it really was in). non-trivial = a plan in which >= 3 kinds of actor overlapped with line processing; distinct by plan")
 	st.Assumptions = []string{"the Go race detector reports only real races; absence of a report for the sampled schedules is not absence of races", "GORACE=halt_on_error=1: the first report ends the run, the plan being executed is the replay"}
 	st.Run(t, c11RunRaw, func() {
 		st.Check(t, func(rt *rapid.T) {
@@ -392,6 +464,14 @@ func TestC11(t *testing.T) {
 				for i := 0; i < n; i++ {
 					c.Actors = append(c.Actors, c11Actor{Kind: "api-inc", Reps: reps})
 				}
+			}
+			if rapid.IntRange(0, 1).Draw(rt, "apiobservers") == 0 {
+				n := rapid.IntRange(1, 3).Draw(rt, "nobs")
+				reps := rapid.IntRange(20, 100).Draw(rt, "obsreps")
+				for i := 0; i < n; i++ {
+					c.Actors = append(c.Actors, c11Actor{Kind: "api-observe", Reps: reps})
+				}
+				c.Actors = append(c.Actors, c11Actor{Kind: "hist-export", Reps: rapid.IntRange(40, 200).Draw(rt, "hexreps")})
 			}
 			if rapid.IntRange(0, 2).Draw(rt, "unloader") == 0 {
 				// at most one actor unloads (UnloadProgram requires a loaded program)
@@ -422,4 +502,70 @@ type slowWriter struct {
 func (w *slowWriter) Write(p []byte) (int, error) {
 	time.Sleep(w.d)
 	return w.ResponseRecorder.Write(p)
+}
+
+// c11CheckJSONHist finds histogram api_hist in a JSON export of the store and
+// hands every label value's (bucket le=1, count, sum) to check.
+func c11CheckJSONHist(body []byte, path string, check func(path string, le1, count uint64, sum float64)) {
+	var ms []struct {
+		Name        string
+		LabelValues []struct {
+			Value struct {
+				Buckets map[string]uint64
+				Count   uint64
+				Sum     float64
+			}
+		}
+	}
+	if err := json.Unmarshal(body, &ms); err != nil {
+		return // not this check's subject (C22)
+	}
+	for _, m := range ms {
+		if m.Name != "api_hist" {
+			continue
+		}
+		for _, lv := range m.LabelValues {
+			check(path, lv.Value.Buckets["1"], lv.Value.Count, lv.Value.Sum)
+		}
+	}
+}
+
+// c11CheckGraphiteHist does the same for the graphite text (bin_1 and count
+// lines per label value; the value line carries the sum).
+func c11CheckGraphiteHist(text string, check func(path string, le1, count uint64, sum float64)) {
+	type rec struct {
+		bin1, count uint64
+		sum         float64
+		n           int
+	}
+	recs := map[string]*rec{}
+	for _, l := range strings.Split(text, "\n") {
+		f := strings.Fields(l)
+		i := strings.Index(l, ".api_hist.k.")
+		if len(f) != 3 || i < 0 {
+			continue
+		}
+		key := strings.SplitN(f[0][i+len(".api_hist.k."):], ".", 2)
+		r := recs[key[0]]
+		if r == nil {
+			r = &rec{}
+			recs[key[0]] = r
+		}
+		switch {
+		case len(key) == 2 && key[1] == "bin_1":
+			r.bin1, _ = strconv.ParseUint(f[1], 10, 64)
+			r.n++
+		case len(key) == 2 && key[1] == "count":
+			r.count, _ = strconv.ParseUint(f[1], 10, 64)
+			r.n++
+		case len(key) == 1:
+			r.sum, _ = strconv.ParseFloat(f[1], 64)
+			r.n++
+		}
+	}
+	for _, r := range recs {
+		if r.n == 3 {
+			check("graphite", r.bin1, r.count, r.sum)
+		}
+	}
 }
